@@ -1,9 +1,9 @@
 #!/bin/bash
-# usage: tools/adopt_seeded.sh C04 [suffix]
+# usage: tools/adopt_seeded.sh C04 [suffix [worktree-dir]]
 # Validates a sub-agent's seeded change (found in /tmp/wt_<ID>) in a fresh scratch worktree of /repo and, if it
 # holds up (applies, suite passes, demo PASS without / FAIL with), stores it under /verif/seeded/<ID><suffix>/.
 ID=$1; SUF=$2
-W=/tmp/wt_$ID
+W=${3:-/tmp/wt_$ID}
 V=/tmp/val_$ID$SUF
 D=/verif/seeded/$ID$SUF
 [ -f $W/seeded_patch.diff ] || { echo "no patch in $W"; exit 2; }
